@@ -31,6 +31,17 @@ def _udim(u):
     return d
 
 
+def _seqdims(x, UA, depth=0):
+    """set of dimension vectors carried by an operand: a unyt object, or a (nested) list / tuple holding unyt objects"""
+    if isinstance(x, UA):
+        return {_udim(x.units)}
+    out = set()
+    if isinstance(x, (list, tuple)) and depth < 3:
+        for e in x[:16]:
+            out |= _seqdims(e, UA, depth + 1)
+    return out
+
+
 def install(unyt, rec, family, formclass_of, opclass_of_dims, keybase_of, exempt):
     """family: ufunc name -> 'arith' | 'order' | 'eq' (others are only counted)."""
     if _STATE["installed"]:
@@ -52,12 +63,29 @@ def install(unyt, rec, family, formclass_of, opclass_of_dims, keybase_of, exempt
             d0, d1 = _udim(inputs[0].units), _udim(inputs[1].units)
             if d0 is not None and d1 is not None and d0 != d1 and not exempt(d0, d1):
                 pre = (d0, d1, str(inputs[0].units), str(inputs[1].units), inputs[0].units, inputs[1].units)
+        clip_pre = None
+        if name == "clip" and method == "__call__" and len(inputs) == 3:
+            # the clip ufunc (reached by ndarray.clip and by calling it directly): data and both bounds must be commensurable, however the
+            # bounds are spelled (unyt objects or sequences holding unyt objects; bare operands carry no dimension and are not looked at)
+            ds = [_seqdims(i, UA) for i in inputs]
+            alld = set().union(*ds)
+            if None not in alld and len(alld) > 1 and not (len(alld) == 2 and exempt(*alld)):
+                clip_pre = ("quantity-list" if any(d and not isinstance(i, UA) for d, i in zip(ds, inputs)) else
+                            opclass_of_dims(*(list(alld)[:2])))
         try:
             ret = orig_ufunc(self, ufunc, method, *inputs, **kwargs)
         except BaseException:
             if pre is not None:
                 rec.count("tap:mixed-dispatch-raised")
+            if clip_pre is not None:
+                rec.count("tap:clip-mixed-dispatch")
             raise
+        if clip_pre is not None and ret is not NotImplemented:
+            rec.count("tap:clip-mixed-dispatch")
+            rec.violation("C01:clip/ufunc-dispatch:returned:%s" % clip_pre,
+                          "[tap] clip ufunc dispatch%s on data in %s with bounds %r, %r (dimensions differ) returned %r instead of raising"
+                          % (" (out=)" if has_out else "", getattr(inputs[0], "units", None), inputs[1], inputs[2], ret),
+                          {"ufunc": "clip", "method": method})
         if pre is None or ret is NotImplemented:
             return ret
         d0, d1, s0, s1, u0, u1 = pre
